@@ -368,15 +368,21 @@ let handle_hist c =
     let levels = int_of_n m.m_levels in
     let stop = ref false in
     let opno = ref 0 in
+    (* the same history as a list of multi-cursor operations, for the proved functions mrun / amrun *)
+    let mops = ref [] and glue_model = ref [] and glue_spec = ref [] and ncursors = ref 1 and sequential = ref true in
     List.iter (fun toks ->
       incr opno;
       if not !stop then
       match toks with
       | cid :: "clone" :: newid :: "=" :: _ ->
-        Hashtbl.replace states newid (Hashtbl.find states cid)
+        Hashtbl.replace states newid (Hashtbl.find states cid);
+        if int_of_string newid <> !ncursors then sequential := false;
+        incr ncursors;
+        mops := MClone (nat_of_int (int_of_string cid)) :: !mops
       | cid :: name :: q :: "=" :: impl_res ->
         let (st, pos) = Hashtbl.find states cid in
         let o = parse_op name q in
+        mops := MOp (nat_of_int (int_of_string cid), o) :: !mops;
         let field = Printf.sprintf "op%d(%s)" !opno name in
         let (impl_r, impl_loads, impl_fp) = match impl_res with
           | ["S"; k; v; l; fp] -> ("S " ^ k ^ " " ^ v, int_of_string l, fp)
@@ -386,6 +392,7 @@ let handle_hist c =
           | _ -> failwith "bad op result" in
         (* specification *)
         let (pos', spec_r) = aspec es pos o in
+        glue_spec := spec_r :: !glue_spec;
         (match spec_r with
          | Some r ->
            spec_ok c (prop ^ "." ^ field) (impl_r = res_string r)
@@ -400,6 +407,7 @@ let handle_hist c =
         (match step st o with
          | Done (st', r) ->
            check_eq c field impl_r (res_string r);
+           glue_model := r :: !glue_model;
            let mloads = int_of_n st'.cs_loads - int_of_n st.cs_loads in
            incr n_checks;
            if impl_loads > mloads then begin
@@ -411,7 +419,20 @@ let handle_hist c =
          | Panic -> check_eq c field impl_r "P"; stop := true
          | Fail e -> check_eq c field impl_r ("E " ^ err_name e); stop := true);
         if String.length impl_r > 0 && (impl_r.[0] = 'E' || impl_r.[0] = 'P') then stop := true
-      | _ -> failwith "bad op line") (get_all c "o")
+      | _ -> failwith "bad op line") (get_all c "o");
+    (* histories with clones: the per-operation bookkeeping above (a table of states copied at each clone)
+       against the functions the clone theorem (C03_clones) is about *)
+    if !ncursors > 1 && !sequential && not !stop then begin
+      let ops = List.rev !mops in
+      (match mrun load m.m_root m.m_levels [cs_fresh] ops with
+       | Done (_, rs) ->
+         check_eq c "clones.mrun" (String.concat ";" (List.map res_string (List.rev !glue_model))) (String.concat ";" (List.map res_string rs))
+       | Panic -> check_eq c "clones.mrun" "results" "panic"
+       | Fail e -> check_eq c "clones.mrun" "results" ("err " ^ err_name e));
+      let show_spec = function None -> "?" | Some r -> res_string r in
+      check_eq c "clones.amrun" (String.concat ";" (List.map show_spec (List.rev !glue_spec)))
+        (String.concat ";" (List.map show_spec (snd (amrun es [Fresh] ops))))
+    end
 
 (* ---------- iterators (C04 C05) ---------- *)
 let iter_result (l : (n list * n list) list) : string =
